@@ -181,6 +181,8 @@ def gen_fields(rng, n=None):
             fld["metavar"] = rng.choice(["N", "VALUE", "X"])
         if rng.random() < 0.1:
             fld["help"] = "some help text"
+        if t["k"] == "bool" and rng.random() < 0.35:
+            fld["decl"] = "flag"    # declared with the `flag()` helper instead of a plain annotation: same contract
         fields.append(fld)
     return fields
 
@@ -326,10 +328,20 @@ def gen_base(rng, cls):
     """(case dict, field the class applies to | None)"""
     for _ in range(50):
         fields = gen_fields(rng)
+        if cls == "required" and rng.random() < 0.12:
+            # a bool declared through flag() with no default is required like any other field without a default
+            f = rng.choice(fields)
+            f.update(ty={"k": "bool"}, default={"kind": "missing"}, decl="flag")
+            fields = [f] + [g for g in fields if g is not f]
         cands = [f for f in fields if class_applies(cls, f)]
+        if cls == "required" and cands and cands[0].get("decl") == "flag" and rng.random() < 0.8:
+            cands = cands[:1]
         if not cands and cls != "unknown":
             f = rng.choice(fields)
             f["ty"] = fit_type(rng, cls)
+            f.pop("decl", None)
+            if f["ty"]["k"] == "bool" and rng.random() < 0.35:
+                f["decl"] = "flag"
             f["default"] = {"kind": "missing"} if cls == "required" else gen_default(rng, f["ty"], 0.25)
             if cls == "negflag" and f["default"]["kind"] == "value" and f["default"]["v"]["t"] == "none":
                 f["default"] = {"kind": "value", "v": {"t": "bool", "v": rng.random() < 0.5}}
@@ -1039,6 +1051,10 @@ def tags(case, obs):
             t.append("ty:" + ty_tag(f["ty"]))
             if ty_tag(f["ty"]).endswith("tuple-hetero"):
                 t.append("hetero")
+            if f.get("decl") == "flag":
+                t.append(f"flag():{c['mutation']}")
+    if any(f.get("decl") == "flag" for f in c["fields"]):
+        t.append("decl:flag()")
     return t
 
 
